@@ -39,7 +39,7 @@ TIERS = {"quick": dict(nshards=16, tuples=120, shape=[(2, 3)], thread_scheds=80,
          "thorough": dict(nshards=64, tuples=260, shape=[(2, 4), (3, 3), (2, 3)], thread_scheds=120, async_scheds=60, stress_ops=6000)}
 EXHAUSTIVE_SUBSPACES = {"quick": ["all interleavings of 2 contexts x 3 operations for each sampled operation tuple"],
                         "thorough": ["all interleavings of 2x4 and 3x3 operations for each sampled operation tuple"]}
-OPS = ["set_x", "set_y", "del_x", "get_x", "iter", "push", "pop", "top", "release", "cleanup", "proxy_x", "proxy_top", "proxy_cv", "proxy_fn", "mutate_y", "spawn", "push_dict", "proxy_top_attr"]
+OPS = ["set_val", "push_val", "proxy_val_attr", "proxy_val_attr", "set_x", "set_y", "del_x", "get_x", "iter", "push", "pop", "top", "release", "cleanup", "proxy_x", "proxy_top", "proxy_cv", "proxy_fn", "mutate_y", "spawn", "push_dict", "proxy_top_attr"]
 
 
 def shards(tier, seed):
@@ -48,6 +48,31 @@ def shards(tier, seed):
     if TIERS[tier]["stress_ops"]:
         out += [{"kind": "stress", "index": i, "of": 2} for i in range(2)]
     return out
+
+
+class Val:
+    """Equal by key, distinct by identity: two contexts bind *equal* objects that are not the same object."""
+
+    def __init__(self, key, payload):
+        self.key, self.payload = key, payload
+
+    def __eq__(self, other):
+        return isinstance(other, Val) and other.key == self.key
+
+    def __hash__(self):
+        return hash(("Val", self.key))
+
+    def __repr__(self):
+        return f"Val({self.key!r}, {self.payload!r})"
+
+
+def same(a, b):
+    """identity for objects, equality for the plain ints the workload binds (Val objects are equal across contexts on purpose)"""
+    if a is b:
+        return True
+    if isinstance(a, Val) or isinstance(b, Val):
+        return False
+    return a == b
 
 
 class Leak(Exception):
@@ -88,6 +113,23 @@ class Harness:
             obj = [v]
             loc.y = obj
             self.model[who] = ({**md, "y": obj}, ms)
+        elif op == "set_val":
+            obj = Val("same-key", ("ctx", who, v))
+            loc.x = obj
+            self.model[who] = ({**md, "x": obj}, ms)
+        elif op == "push_val":
+            obj = Val("same-key", ("ctx", who, v))
+            stk.push(obj)
+            self.model[who] = (md, ms + (obj,))
+        elif op == "proxy_val_attr":
+            for p, target in ((self.px, md.get("x")), (self.ptop, ms[-1] if ms else None)):
+                if isinstance(target, Val):
+                    got = p.payload
+                    if got != target.payload:
+                        raise Leak("C18/proxy-resolves-to-other-context", f"proxy.payload = {got!r}, the object bound in context {who} has {target.payload!r}")
+                    p.payload = ("written", who, v)
+                    if target.payload != ("written", who, v):
+                        raise Leak("C18/proxy-resolves-to-other-context", f"assignment through the proxy in context {who} did not reach the bound object ({target.payload!r})")
         elif op == "del_x":
             try:
                 del loc.x
@@ -99,7 +141,7 @@ class Harness:
             self.model[who] = ({k: vv for k, vv in md.items() if k != "x"}, ms)
         elif op == "get_x":
             got = getattr(loc, "x", "MISSING")
-            if got != md.get("x", "MISSING"):
+            if not same(got, md.get("x", "MISSING")):
                 raise Leak("C18/attribute-read-differs", f"x reads {got!r}, model {md.get('x', 'MISSING')!r}")
         elif op == "iter":
             got = dict(list(loc))
@@ -119,13 +161,13 @@ class Harness:
         elif op == "pop":
             got = stk.pop()
             exp = ms[-1] if ms else None
-            if got is not exp and got != exp:
+            if not same(got, exp):
                 raise Leak("C18/pop-differs", f"pop() = {got!r}, model {exp!r}")
             self.model[who] = (md, ms[:-1])
         elif op == "top":
             got = stk.top
             exp = ms[-1] if ms else None
-            if got is not exp and got != exp:
+            if not same(got, exp):
                 raise Leak("C18/top-differs", f"top = {got!r}, model {exp!r}")
         elif op == "release":
             self.L.release_local(loc)
@@ -141,7 +183,7 @@ class Harness:
                 got = self.pfn._get_current_object()
             except (RuntimeError, AttributeError):
                 got = "UNBOUND"
-            if got != md.get("x", "UNBOUND"):
+            if not same(got, md.get("x", "UNBOUND")):
                 raise Leak("C18/proxy-resolves-to-other-context", f"LocalProxy(callable) -> {got!r}, model {md.get('x', 'UNBOUND')!r}")
         elif op == "proxy_top":
             self._proxy(self.ptop, ms[-1] if ms else "UNBOUND")
@@ -181,7 +223,7 @@ class Harness:
             got = p._get_current_object()
         except RuntimeError:
             got = "UNBOUND"
-        if got is not exp and got != exp:
+        if not same(got, exp):
             raise Leak("C18/proxy-resolves-to-other-context", f"proxy -> {got!r}, model {exp!r}")
         if exp == "UNBOUND":
             self.stats["unbound"] += 1
@@ -200,24 +242,24 @@ class Harness:
         md, ms = self.model[i]
         self.stats["readbacks"] += 1
         d = dict(list(self.loc))
-        if d != md or any(d[k] is not md[k] and not isinstance(md[k], int) for k in md):
+        if list(d) != list(md) or any(d[k] is not md[k] and not (isinstance(md[k], int) and d[k] == md[k]) for k in md):
             raise Leak("C18/LEAK-namespace-differs-from-model", f"context {i}: local holds {d!r}, model {md!r}")
         t = self.stk.top
         exp = ms[-1] if ms else None
-        if t is not exp and t != exp:
+        if not same(t, exp):
             raise Leak("C18/LEAK-stack-differs-from-model", f"context {i}: top {t!r}, model {exp!r}")
         try:
             whole = list(self.cv_s.get())
         except LookupError:
             whole = []
-        if len(whole) != len(ms) or any(a is not b and a != b for a, b in zip(whole, ms)):
+        if len(whole) != len(ms) or any(not same(a, b) for a, b in zip(whole, ms)):
             raise Leak("C18/LEAK-stack-differs-from-model", f"context {i}: stack {whole!r}, model {list(ms)!r}")
         for p, e in ((self.px, md.get("x", "UNBOUND")), (self.ptop, exp if ms else "UNBOUND")):
             try:
                 got = p._get_current_object()
             except RuntimeError:
                 got = "UNBOUND"
-            if got is not e and got != e:
+            if not same(got, e):
                 raise Leak("C18/proxy-resolves-to-other-context", f"context {i}: proxy -> {got!r}, model {e!r}")
         # M8: payload objects
         for cv in (self.cv_l, self.cv_s):
@@ -236,7 +278,7 @@ class Harness:
 
 
 def is_writer(ops):
-    return any(o in ("set_x", "set_y", "push", "push_dict", "del_x", "pop", "release", "cleanup") for o in ops)
+    return any(o in ("set_val", "push_val", "set_x", "set_y", "push", "push_dict", "del_x", "pop", "release", "cleanup") for o in ops)
 
 
 def run_copy_context(L, rec, ops_per_ctx, schedule, rng):
